@@ -120,16 +120,20 @@ template <int S> static void explore(Ctx &c, long &id) {
   const std::vector<double> extreme = {0.015625, 64.0, 1024.0};
   const size_t nreg = sigmas.size(); const int Nextreme = th ? 5 : 3;
   sigmas.insert(sigmas.end(), extreme.begin(), extreme.end());
-  for (int alpha = 0; alpha < (th ? 2 : 1); ++alpha) {
+  for (int alpha = 0; alpha < 3; ++alpha) {
+    if (alpha == 1 && !th) continue;
     double L[3]; for (int i = 0; i < 3; ++i) L[i] = letters(S)[i];
     if (alpha == 1) { Lcg g((uint64_t)c.args.seed * 77 + S); L[0] *= 1.0 + (1 + g.next() % 1000) / 16384.0; L[1] *= 1.0 + (1 + g.next() % 1000) / 16001.0; }
-    int nmax = alpha == 1 ? std::min(Nmax3, 6) : Nmax3;
+    // alphabet 2 (both tiers): NEARLY EQUAL letters 1, 1+2^-22, 1-2^-21 (neighbouring durations that differ by less than 1e-6 but are
+    // not bit-identical): a tolerance used where exact equality was meant shows up here (seeded change C01-m4)
+    if (alpha == 2) { L[0] = 1.0 - 4.76837158203125e-07; L[1] = 1.0; L[2] = 1.0 + 2.384185791015625e-07; }
+    int nmax = alpha == 1 ? std::min(Nmax3, 6) : alpha == 2 ? std::min(Nmax3, th ? 6 : 4) : Nmax3;
     for (int N = 1; N <= (th && alpha == 0 ? 10 : nmax); ++N) {
       int base = N <= nmax ? 3 : 2;
       long nw = ipow(base, N);
       for (long w = 0; w < nw; ++w) for (size_t si = 0; si < sigmas.size(); ++si) {
         long my = id++;
-        if (si >= nreg && (N > Nextreme || alpha == 1)) continue;
+        if (si >= nreg && (N > Nextreme || alpha >= 1)) continue;
         if (!c.mine(my)) continue;
         std::string unit = str(my);
         if (!c.begin(unit)) continue;
